@@ -527,17 +527,30 @@ def getUserData (s : S) : Except String (S × List Ev) :=
     | .binary => .ok (s, pre ++ [.input chunk])
     | .console => .ok (s, pre)
 
-/-- add_console_line (`line_length` = bytes + 1) -/
+/-- add_console_line, first part: if the blob does not fit and no complete command is pending, the unfinished
+    over-long line is discarded -/
+def consoleMakeRoom (s : S) (len : Nat) : Except String S :=
+  if s.tend + len ≥ MAXT then
+    match cmdInBuf s with
+    | .error e => .error e
+    | .ok c => .ok (if c then s else { s with tstart := 0, tend := 0 })
+  else .ok s
+
+/-- add_console_line (`line_length` = bytes + 1): a blob that does not fit is dropped as a whole -/
 def addConsoleLine (s : S) (bytes : List Byte) : Except String S :=
   let len := bytes.length
-  if len = 0 ∨ s.tend + len ≥ MAXT then .ok s else
-  let conv := bytes.map (fun b => if b = bLF ∨ b = bCR then bNUL else b)
-  match writeAt s.text s.tend conv with
+  if len = 0 then .ok s else
+  match consoleMakeRoom s len with
   | .error e => .error e
-  | .ok t =>
-    match writeAt t (s.tend + len) [0] with
+  | .ok s1 =>
+    if s1.tend + len ≥ MAXT then .ok s1 else
+    let conv := bytes.map (fun b => if b = bLF ∨ b = bCR then bNUL else b)
+    match writeAt s1.text s1.tend conv with
     | .error e => .error e
-    | .ok t2 => setCmdFlag { s with text := t2, tend := s.tend + len }
+    | .ok t =>
+      match writeAt t (s1.tend + len) [0] with
+      | .error e => .error e
+      | .ok t2 => setCmdFlag { s1 with text := t2, tend := s1.tend + len }
 
 /-! ### scripted runs (the case language of the harness) -/
 inductive Op where
